@@ -64,7 +64,7 @@ PowersOk(gap, base) == \E m \in 0..3 : Near(gap, base * (2 ^ m))
 \* ---------------------------------------------------------------------------------------------
 \* Clause evaluation: Bad(s, ev, l) = "" if event l is fine in state s, else the clause id.
 
-BadWrite(s, ev, e, echoTo) ==
+BadWrite(s, ev, e, echoTo, timed) ==
   LET i == e.i  t == e.t IN
   IF i \notin Ids THEN ""                     \* notice / probe frames are not judged here
   ELSE IF s.callT[i] < 0 THEN "C08d_write_without_call"
@@ -83,14 +83,14 @@ BadWrite(s, ev, e, echoTo) ==
        THEN "C08f_start_order"
   \* C08c "the wait doubling (up to 8x) after each unanswered attempt" (judged on attempts that
   \*      got no echo at all; base = the context's echo time-out, read from the object, J13)
-  ELSE IF s.nw[i] >= 1 /\ ~s.rxSince[i] /\ ~s.dist[i] /\ ~PowersOk(t - s.lastW[i], echoTo)
+  ELSE IF timed /\ s.nw[i] >= 1 /\ ~s.rxSince[i] /\ ~s.dist[i] /\ ~PowersOk(t - s.lastW[i], echoTo)
        THEN "C08c_gap_not_on_backoff_grid"
-  ELSE IF s.nw[i] >= 1 /\ ~s.rxSince[i] /\ ~s.dist[i] /\ s.lastGap[i] > 0
+  ELSE IF timed /\ s.nw[i] >= 1 /\ ~s.rxSince[i] /\ ~s.dist[i] /\ s.lastGap[i] > 0
           /\ ~Near(t - s.lastW[i], Min(2 * s.lastGap[i], BackoffCap * echoTo))
        THEN "C08c_gap_not_doubled"
   ELSE ""
 
-BadAnswer(s, e) ==
+BadAnswer(s, e, timed) ==
   LET i == e.i  t == e.t IN
   IF i \notin Ids \/ s.callT[i] < 0 THEN "C07_answer_without_call"
   ELSE IF s.ended[i] THEN "C07_answered_twice"
@@ -102,19 +102,20 @@ BadAnswer(s, e) ==
   ELSE IF e.e = "Raise" /\ e.k \notin {"protocol", "outer_timeout", "cancelled"} THEN "C07b_error_family"
   \* C07e "within the caller's timeout (capped at 20 s) measured from the call, plus only the
   \*       time taken by a mandatory impersonation notice"
-  ELSE IF e.k \notin {"outer_timeout", "cancelled"} /\ t - s.callT[i] - s.nDur[i] > s.to[i] + RoundSl
+  ELSE IF timed /\ e.k \notin {"outer_timeout", "cancelled"} /\ t - s.callT[i] - s.nDur[i] > s.to[i] + RoundSl
        THEN "C07e_late"
   \* C08b "and -- if its timeout allows -- no fewer" (J4: undisturbed, not cut short by the caller's
   \*       own time-out, at least one transmission made)
-  ELSE IF e.e = "Raise" /\ e.k = "protocol" /\ s.nw[i] >= 1 /\ ~s.dist[i]
+  ELSE IF timed /\ e.e = "Raise" /\ e.k = "protocol" /\ s.nw[i] >= 1 /\ ~s.dist[i]
           /\ t - s.callT[i] - s.nDur[i] < s.to[i] - RoundSl /\ s.nw[i] < Budget(s, i)
        THEN "C08b_gave_up_early"
   ELSE ""
 
-Bad(s, ev, l, echoTo) ==
+\* timed = FALSE for executions driven by the Director (virtual time is not meaningful there)
+Bad(s, ev, l, echoTo, timed) ==
   LET e == ev[l] IN
-  CASE e.e = "Write"   -> BadWrite(s, ev, e, echoTo)
-    [] e.e \in {"Return", "Raise"} -> BadAnswer(s, e)
+  CASE e.e = "Write"   -> BadWrite(s, ev, e, echoTo, timed)
+    [] e.e \in {"Return", "Raise"} -> BadAnswer(s, e, timed)
     \* C07c "never hangs"
     [] e.e = "Hang"    -> "C07c_hang"
     \* C09a "the sender ... keeps serving": the event-loop thread itself must never block for ever
